@@ -300,9 +300,30 @@ def r3_nesting_errors_raise(ctx, rep):
     py, cs = ctx.py, ctx.cascade
     aev = astq.trace_block(cs.after_loop, cs.fn) if cs.after_loop else []
     raises = [e for e in aev if e.kind == "raise"]
-    ok = bool(raises) and any(
-        all(re.fullmatch(r"not \(?isinstance\(self, FortranSourceFile\)\)?", c) for c in e.cond_texts()) and e.cond_texts()
-        for e in raises)
+
+    def file_atom(x):
+        # "this container is the file itself" / "the block level is zero", in any spelling
+        if isinstance(x, ast.Call) and call_name(x) == "isinstance" and len(x.args) == 2 and ast.unparse(x.args[0]) == "self" and \
+                "FortranSourceFile" in ast.unparse(x.args[1]):
+            return ("file", True)
+        if isinstance(x, ast.Name) and x.id == "blocklevel":
+            return ("lvl0", False)
+        if isinstance(x, ast.Compare) and len(x.ops) == 1:
+            l, r, op = x.left, x.comparators[0], x.ops[0]
+            for a, b, swapped in ((l, r, False), (r, l, True)):
+                if isinstance(a, ast.Name) and a.id == "blocklevel" and isinstance(b, ast.Constant) and b.value in (0, 1):
+                    kind = type(op)
+                    if swapped:
+                        kind = {ast.Lt: ast.Gt, ast.Gt: ast.Lt, ast.LtE: ast.GtE, ast.GtE: ast.LtE}.get(kind, kind)
+                    if b.value == 0:
+                        table = {ast.Eq: True, ast.NotEq: False, ast.Gt: False, ast.LtE: True}
+                    else:
+                        table = {ast.Lt: True, ast.GtE: False}
+                    if kind in table:
+                        return ("lvl0", table[kind])
+        return None
+    ok = bool(raises) and any(astq.event_fires(e, file_atom, {"file": False}) is True and
+                              astq.event_fires(e, file_atom, {"file": True}) is False for e in raises)
     rep.ob("end of input inside a container raises", ok,
            "`if not isinstance(self, FortranSourceFile): raise ...` follows the dispatch loop" if ok else
            "reaching the end of the file while still nested no longer raises unconditionally (e.g. it goes "
@@ -333,12 +354,11 @@ def r3_nesting_errors_raise(ctx, rep):
     e = cs.arm_by_regex("END_RE")
     eev = astq.trace_block(e.body, cs.fn)
     errs = [x for x in eev if x.kind == "call" and call_name(x.node) == "self.print_error"
-            and any("isinstance(self, FortranSourceFile)" in c and not c.startswith("not") for c in x.cond_texts())]
+            and astq.path_implies(x, file_atom, {"file": True}) is True]
     rep.ob("END at file level is an error", bool(errs), "", py.nloc(e.test))
     rets = [x for x in eev if x.kind == "return"]
     cl = [x for x in eev if x.kind == "call" and call_name(x.node) == "self._cleanup"]
-    ok = bool(rets) and bool(cl) and all(any(re.search(r"blocklevel == 0|not blocklevel", c) and not c.startswith("not (") for c in x.cond_texts())
-                                         for x in rets + cl)
+    ok = bool(rets) and bool(cl) and all(astq.path_implies(x, file_atom, {"lvl0": True}) is True for x in rets + cl)
     rep.ob("END closes the container only at block level 0", ok, "", py.nloc(e.test))
     c = cs.arm_by_literal("contains")
     ok = len(c.errors) == 2
